@@ -290,14 +290,9 @@ def _decide_group(check, ctx, oname, cname, label, rs, pc, claim, logic, timeout
         for a, b in zip(L, R):
             f = _diff_claim(to_S(a), to_S(b), r.op, tol)
             n_el += 1
-            if not _is_trivial(f):
-                bad.append(f)
+            bad.append(f)
     sample = dict(obligation=oname, elements=n_el, nontrivial_elements=len(bad),
                   inputs=len(ctx.symbols), path_condition=[str(p)[:80] for p in pc][:4])
-    if not bad:
-        check.obligation(oname, DISCHARGED, detail="all element relations are syntactically identical terms", trivial=True,
-                         paths=1, engine="symnum", sample=sample)
-        return
     s = ctx.solver(logic, int(timeout_s * 1000))
     s.add(*pc)
     s.add(z3.Or(*bad) if len(bad) > 1 else bad[0])
